@@ -329,8 +329,20 @@ func genBatch(t *rapid.T) Batch {
 		}
 		return b
 	}
+	rawHeavy := rapid.IntRange(0, 3).Draw(t, "rawheavy") == 0
 	for i := 0; i < n; i++ {
-		b.Srcs = append(b.Srcs, genInput(t).Src)
+		src := genInput(t).Src
+		if rawHeavy {
+			// texts in which the scanner spends its time collecting raw strings and block comments, every
+			// one with a content of its own: whatever a scanner keeps while it collects them is its own
+			var sb strings.Builder
+			lines := rapid.IntRange(20, 60).Draw(t, "rawlines")
+			for l := 0; l < lines; l++ {
+				fmt.Fprintf(&sb, "r%d = `raw string %d of text %d, long enough to take a while to collect` /* block comment %d-%d */\n", l, l, i, i, l)
+			}
+			src = sb.String() + genValid(t, "rawtail")
+		}
+		b.Srcs = append(b.Srcs, src)
 	}
 	return b
 }
@@ -433,6 +445,25 @@ type Pair struct {
 
 func genValid(t *rapid.T, label string) string {
 	src := genValid0(t, label)
+	if rapid.IntRange(0, 3).Draw(t, label+"_extra") == 0 {
+		// raw strings and block comments with a text of their own (the scanner collects them), statements
+		// followed by a '#' or '//' comment on the same line with more statements on the next lines
+		k := rapid.IntRange(0, 99999).Draw(t, label+"_rawid")
+		extra := []string{
+			fmt.Sprintf("rs = `raw %d text`", k),
+			fmt.Sprintf("rs = `raw %d\nsecond line %d` + `tail%d`", k, k+1, k+2),
+			fmt.Sprintf("/* comment %d */\nrs = `r%d`", k, k),
+			fmt.Sprintf("xc = %d # trailing %d\nyc = 2", k, k),
+			fmt.Sprintf("xc = %d // trailing %d\nyc = 2 # end", k, k),
+			fmt.Sprintf("xc = %d # trailing", k),
+			fmt.Sprintf("func rf() {\n return `%d` # c\n}\nrf()", k),
+		}[rapid.IntRange(0, 6).Draw(t, label+"_extrakind")]
+		if rapid.Bool().Draw(t, label+"_extrafirst") || strings.TrimSpace(src) == "" {
+			src = extra + "\n" + src
+		} else {
+			src = strings.TrimRight(src, "; \n") + "\n" + extra
+		}
+	}
 	if rapid.IntRange(0, 7).Draw(t, label+"_head") == 0 {
 		// a first line that is a comment to the language but special to tools (interpreter line,
 		// byte order mark look-alikes, editor mode lines)
